@@ -82,9 +82,9 @@ def cases(tier, seed):
     dl = QUICK_LATTICE if tier == "quick" else LATTICE
     bl = [None] + ([0, 1, 255, -128, 2 ** 31 - 1] if tier == "quick" else [0, 1, -1, 127, 255, 256, -128, 65535, 2 ** 31 - 1, -2 ** 31, 2 ** 32 - 1, 100])
     for fmt in FORMATS:
-        for bk in ["minimum", "maximum"]:
+        for bk in ["minimum", "maximum", "exclusiveMinimum", "exclusiveMaximum"]:
             for bv in bl:
-                if bv is None and bk == "maximum":
+                if bv is None and bk != "minimum":
                     continue
                 for d in list(dl) + ["x", 1.5]:
                     s = {"type": "integer", "default": d}
@@ -93,6 +93,16 @@ def cases(tier, seed):
                     if bv is not None:
                         s[bk] = bv
                     out.append(_mk("default", s, fmt=fmt))
+    # defaults next to an inclusive AND an exclusive bound on the same side (the effective bound is the tighter one)
+    for fmt in (None, "int32", "uint8"):
+        for (k1, k2) in (("minimum", "exclusiveMinimum"), ("maximum", "exclusiveMaximum")):
+            for v1 in (0, 5, 10):
+                for v2 in (0, 5, 10):
+                    for d in sorted({v1 - 1, v1, v1 + 1, v2 - 1, v2, v2 + 1}):
+                        s = {"type": "integer", "default": d, k1: v1, k2: v2}
+                        if fmt:
+                            s["format"] = fmt
+                        out.append(_mk("default", s, fmt=fmt))
     # string and float format tables
     for fmt in list(STRING_FORMATS) + UNKNOWN_STRING_FORMATS:
         for extra in ({}, {"description": "d"}):
